@@ -106,6 +106,7 @@ FAMILIES["wire"] = {
                    230: "C14: tampered/foreign traffic was acted on with a plaintext different from the original",
                    233: "C14: a copy with the version byte flipped was acted on although its padding is not well-formed under the other version", 231: "C14: version byte of genuine ciphertext flipped: a different plaintext was accepted",
                    232: "C14: traffic sealed under another label (associated data) was acted on",
+                   234: "C14: traffic sealed under a key that is not installed when it arrives (never installed, or removed since, however often it had been added) was acted on",
                    241: "C13: a hand-off queue grew beyond HandoffQueueDepth", 240: "C13: packet path panicked",
                    250: "C11: assembled packet larger than the configured packet size", 251: "C11: receiver did not unpack exactly the piggy-backed messages"},
     "assumptions": ["AES-GCM open/seal results and LZW (de)compression enter the model as tables computed with the Go standard library / the package helpers for the bytes of each case",
